@@ -1,293 +1,865 @@
 """C06 - PlantUML diagrams parse to exactly their components, aliases and arrows.
 
-  C06.R1  the language of the reconstructed regular expressions contains every documented declaration / dependency form, and the named
+The parsing pipeline behind the public entry point `PumlParser.parse` is analysed by an abstract interpreter (rules/c06_absint.py:
+shapes + provenance of regex-group captures + constant propagation); helpers are found by role (reachable from `parse`), never by name.
+
+  C06.R1  the language of the reconstructed regular expressions contains every documented declaration / dependency form, the named
           groups bind name, alias, dependor and dependee to the intended substrings (oracle: the property's documented subset and
-          docs/features/plantuml.md); component-name groups admit '.', '_' and digits
-  C06.R2  merging dependencies per resolved component accumulates, never overwrites (alias and name resolve to the same key)
-  C06.R3  aliases are resolved on both sides; the component set is declared names + unified keys + unified values
-  C06.R4  a file without start/end tags raises PumlParsingError
+          docs/features/plantuml.md), the text bound on the tail side of an arrow ends up as key and the text bound on the head side
+          as element of the value sets of `ParsedDependencies.dependencies`; component-name groups admit '.', '_' and digits
+  C06.R2  every store into a dependor-keyed dict accumulates, never overwrites (two arrows of one component; alias and name
+          resolve to the same key)
+  C06.R3  aliases are resolved on both sides (keys and values of the returned relation can come out of the alias -> name map);
+          the returned component set contains declared names, dependors and dependees
+  C06.R4  a file without start/end tags is rejected with PumlParsingError; with tags exactly the text between them is scanned
+          (decided by folding the tag slicing - regex or str.find/partition/... - on a table of file contents)
+  C06.R5  a declaration with an alias and an alias-free declaration of the same component stay distinct until the alias map is
+          built (the declaration pattern also matches a bracketed name at the end of an arrow line)
 """
 
 from __future__ import annotations
 
 import ast
 import re
+import re._constants as C
 
-from core.flow import Flow, Spec
-from core.fold import fold
-from core.guards import f_not, implies, to_formula
-from core.loader import AnalysisError, FuncInfo, Repo, ancestors, calls_in, header, norm, own_nodes, parent
+from core.loader import AnalysisError, ClassInfo, Repo, norm
 from core.regex_lang import Regex, cross_validate
 from core.report import Result
 
-from .common import cfg_of, conds, copy_prop, dotted, guard_formula, is_attr_call, loops_around, stmt_of, types_of, where
+from . import c06_absint as A
 
-PARSER = "pytestarch.diagram_extension.diagram_parser"
+PARSER_CLASS = "pytestarch.diagram_extension.diagram_parser.PumlParser"
+RESULT_CLASS = "pytestarch.diagram_extension.parsed_dependencies.ParsedDependencies"
+ERROR_CLASS = "pytestarch.diagram_extension.exceptions.PumlParsingError"
 
 NAMES = ["A", "a_1", "mod2", "src.a.b"]
 ALIAS = "AL"
 ARROWS = [("-->", "r"), ("->", "r"), ("<--", "l"), ("<-", "l"), ("-uses->", "r"), ("<-uses-", "l")]
 
-
-def compiled_pattern(repo: Repo, fi: FuncInfo) -> tuple[str, int, ast.Call]:
-    calls = [c for c in calls_in(fi.node) if repo.resolve_name(fi.module, c.func) == "re.compile"]
-    if len(calls) != 1:
-        raise AnalysisError(f"{fi.fq}: expected exactly one re.compile call")
-    c = calls[0]
-    text = fold(repo, fi.module, c.args[0], fi)
-    if text is None:
-        raise AnalysisError(f"{fi.fq}: the pattern `{norm(c.args[0])}` cannot be reconstructed by constant folding")
-    flags = 0
-    for a in c.args[1:]:
-        for part in ast.walk(a):
-            fq = repo.resolve_name(fi.module, part) if isinstance(part, ast.Attribute) else None
-            if fq and fq.startswith("re."):
-                flags |= int(getattr(re, fq[3:]))
-    return text, flags, c
-
-
-def group_roles(repo: Repo, fi: FuncInfo) -> dict[str, list[str]]:
-    """local variable -> group names tried in order, from `v = match.group(a) or match.group(b)`."""
-    out: dict[str, list[str]] = {}
-    for s in own_nodes(fi.node):
-        if isinstance(s, ast.Assign) and isinstance(s.targets[0], ast.Name):
-            vals = s.value.values if isinstance(s.value, ast.BoolOp) and isinstance(s.value.op, ast.Or) else [s.value]
-            names = []
-            for v in vals:
-                if isinstance(v, ast.Call) and is_attr_call(v, "group") and v.args:
-                    g = fold(repo, fi.module, v.args[0], fi)
-                    if g is None:
-                        raise AnalysisError(f"{fi.fq}: group name `{norm(v.args[0])}` not foldable")
-                    names.append(g)
-                else:
-                    names = []
-                    break
-            if names:
-                out[s.targets[0].id] = names
-    return out
+BODY = "\n[A] --> [B]\n[C] as c\nc -> A\n"
+TAGGED = f"some text\n[X] --> [Y]\n@startuml{BODY}@enduml\ntrailing\n[P] --> [Q]\n"
+# further accepted layouts: (what, file content); the text between the tags is BODY in all of them
+ACCEPTED_MORE = [
+    ("a diagram followed by text that mentions @startuml", f"intro\n@startuml{BODY}@enduml\nsee the @startuml reference\n[P] --> [Q]\n"),
+]
+REJECTED = [
+    ("no tags at all", "just text\n[A] --> [B]\n"),
+    ("only a start tag", "@startuml\n[A] --> [B]\n"),
+    ("only an end tag", "[A] --> [B]\n@enduml\n"),
+    ("an empty file", ""),
+    ("the end tag before the start tag", "@enduml\n[A] --> [B]\n@startuml\n"),
+    ("a start tag without end tag after a text that mentions @enduml", "intro: diagrams end with @enduml\n@startuml\n[A] --> [B]\n"),
+    ("nothing between adjacent tags", "@startuml@enduml"),
+]
 
 
-def first(groups: dict[str, str | None], names: list[str]) -> str | None:
-    for n in names:
-        if groups.get(n):
-            return groups[n]
-    return None
+# --------------------------------------------------------------------------------------------------------------- helpers
+def find_class(repo: Repo, dotted: str) -> ClassInfo:
+    fq = repo._canonical(dotted)
+    ci = repo.classes.get(fq)
+    if ci is None:
+        raise AnalysisError(f"public anchor class {dotted} not found")
+    return ci
 
 
+def interpret(repo: Repo, parser: ClassInfo, content: A.AV | None) -> tuple[A.Interp, A.AV, bool]:
+    fi = repo.lookup_method(parser, "parse")
+    if fi is None or fi.is_abstract:
+        raise AnalysisError(f"{parser.fq}.parse not found")
+    interp = A.Interp(repo, content)
+    boot = A.Frame(None, parser.module, ("boot",))
+    try:
+        self_av = interp.construct(parser, [], {}, boot, parser.node)
+    except A._Dead:
+        raise AnalysisError(f"constructor of {parser.name} always raises") from None
+    path = A.ref(A.Opaque(("path",), "path"))
+    v, completed = interp.run(fi, [self_av, path])
+    return interp, v, completed
+
+
+def atoms_of(av: A.AV) -> frozenset:
+    return av.prov
+
+
+def elem_atoms(interp: A.Interp, av: A.AV) -> tuple[frozenset, bool]:
+    """(atoms of the elements of the collections in `av`, shape fully recognised)."""
+    out: set = set()
+    ok = bool(av.refs) and not av.top
+    for n in av.refs:
+        if isinstance(n, A.Seq):
+            out |= n.elem.prov
+            if n.elem.refs:
+                ok = False
+        elif isinstance(n, A.View) and n.kind == "keys":
+            out |= n.d.k.prov
+        else:
+            ok = False
+            out |= interp.flat_prov(A.ref(n))
+    return frozenset(out), ok
+
+
+def short(atom) -> str:
+    atom = A.base_atom(atom)
+    return f"group `{atom[2]}`" if atom and atom[0] == "g" else str(atom)
+
+
+def bases(atoms) -> set:
+    return {A.base_atom(a) for a in atoms}
+
+
+def looked_up(atoms) -> set:
+    """Atoms that were read out of a mapping with computed keys (`aliases[x]`, `aliases.get(x, x)`, `.values()`)."""
+    return {a[1] for a in atoms if a and a[0] == "v"}
+
+
+def has_unknown(atoms) -> bool:
+    return any(a and A.base_atom(a)[0] == "?" for a in atoms)
+
+
+def _class_has(items, ch: str) -> bool:
+    negate = hit = False
+    for op, av in items:
+        if op is C.NEGATE:
+            negate = True
+        elif op is C.LITERAL:
+            hit = hit or ord(ch) == av
+        elif op is C.RANGE:
+            hit = hit or av[0] <= ord(ch) <= av[1]
+        elif op is C.CATEGORY:
+            hit = hit or Regex._category(av, ch)
+    return hit != negate
+
+
+def admits(tree, gname: str, ch: str, dotall: bool = False) -> bool:
+    """Does some character position inside the named group accept `ch`?  (structural question on the sre parse tree)"""
+    gid = gname if isinstance(gname, int) else dict(tree.state.groupdict).get(gname)
+    found = False
+
+    def walk(seq, inside: bool) -> None:
+        nonlocal found
+        for op, av in seq:
+            if op is C.SUBPATTERN:
+                walk(av[3], inside or av[0] == gid)
+            elif op is C.BRANCH:
+                for alt in av[1]:
+                    walk(alt, inside)
+            elif op in (C.MAX_REPEAT, C.MIN_REPEAT) or op is getattr(C, "POSSESSIVE_REPEAT", None):
+                walk(av[2], inside)
+            elif op is getattr(C, "ATOMIC_GROUP", None):
+                walk(av, inside)
+            elif op in (C.ASSERT, C.ASSERT_NOT):
+                continue
+            elif inside:
+                if op is C.IN:
+                    found = found or _class_has(av, ch)
+                elif op is C.LITERAL:
+                    found = found or ord(ch) == av
+                elif op is C.NOT_LITERAL:
+                    found = found or ord(ch) != av
+                elif op is C.ANY:
+                    found = found or ch != "\n" or dotall
+
+    walk(tree, False)
+    return found
+
+
+class Rx(Regex):
+    """The shared interpreter, honouring flags given inline in the pattern text (`(?m)`, `(?s)`)."""
+
+    def __init__(self, pattern: str, flags: int = 0) -> None:
+        super().__init__(pattern, flags)
+        eff = flags | int(getattr(self.tree.state, "flags", 0))
+        self.flags = eff
+        self.multiline = bool(eff & re.MULTILINE)
+        self.dotall = bool(eff & re.DOTALL)
+
+
+class StdRegex:
+    """Same questions answered by the stdlib engine (used when the checker's interpreter does not support a construct of the pattern)."""
+
+    def __init__(self, text: str, flags: int) -> None:
+        self.c = re.compile(text, flags)
+        self.groupindex = dict(self.c.groupindex)
+
+    def finditer(self, s: str) -> list:
+        return [(m.start(), m.end(), m.groupdict()) for m in self.c.finditer(s)]
+
+    def search(self, s: str):
+        m = self.c.search(s)
+        return None if m is None else (m.start(), m.end(), m.groupdict())
+
+    def spans(self, s: str, how: str) -> list:
+        if how in ("finditer", "findall", "split", "sub", "subn"):
+            ms = list(self.c.finditer(s))
+        else:
+            m = getattr(self.c, how)(s)
+            ms = [m] if m is not None else []
+        return [(m.start(), m.end(), {gid: m.span(gid) for gid in range(1, self.c.groups + 1) if m.span(gid) != (-1, -1)}) for m in ms]
+
+    def match_at(self, s: str, pos: int):
+        m = self.c.match(s, pos)
+        return None if m is None else (m.end(), {gid: m.span(gid) for gid in range(1, self.c.groups + 1) if m.span(gid) != (-1, -1)})
+
+
+class LinePattern:
+    def __init__(self, p: A.Pattern, site: A.Site, samples: list[str], res: Result) -> None:
+        self.p = p
+        self.site = site
+        self.roles: dict = {}
+        self.used: set = set()  # groups (names, or indexes of unnamed groups) the code reads
+        self._tree = None
+        self.own = True
+        try:
+            self.rx = Rx(p.text, p.flags)
+            bad = cross_validate(self.rx, samples + [self.PRE + x + self.POST for x in samples])
+        except AnalysisError as e:
+            bad = [str(e)]
+        if bad:
+            self.own = False
+            try:
+                self.rx = StdRegex(p.text, p.flags)
+            except re.error as e:
+                raise AnalysisError(f"reconstructed pattern does not compile: {e}: {p.text!r}") from e
+            res.observe(f"C06.R1: pattern of {self.key()} evaluated with the stdlib engine (the checker's interpreter: {bad[0][:120]})")
+
+    def tree(self):
+        import re._parser as P
+
+        if self._tree is None:
+            self._tree = P.parse(self.p.text, self.p.flags)
+        return self._tree
+
+    def matches(self, line: str) -> list[tuple[int, int, dict]]:
+        """(start, end, {group name or index of an unnamed group: captured text or None}) per match, as the call site would see them."""
+        how = self.site.how
+        whole_text = how in ("finditer", "findall", "split", "sub", "subn")
+        if whole_text:
+            # the call site scans the whole diagram: the documented line is one line among others
+            return self._in_context(line)
+        return self._matches(line)
+
+    PRE, POST = "%%%\n", "\n%%%"
+
+    def _in_context(self, line: str) -> list[tuple[int, int, dict]]:
+        off = len(self.PRE)
+        out = []
+        for a, b, caps in self._matches(self.PRE + line + self.POST):
+            if b <= off or a >= off + len(line):
+                continue  # a match inside the neutral context lines
+            out.append((a - off, b - off, caps))
+        return out
+
+    def _matches(self, line: str) -> list[tuple[int, int, dict]]:
+        how = self.site.how
+        if isinstance(self.rx, StdRegex):
+            raw = self.rx.spans(line, how)
+        else:
+            raw = []
+            if how in ("finditer", "findall", "split", "sub", "subn", "search"):
+                pos = 0
+                while pos <= len(line):
+                    hit = None
+                    for p in range(pos, len(line) + 1):
+                        r = self.rx.match_at(line, p)
+                        if r is not None:
+                            hit = (p, r[0], r[1])
+                            break
+                    if hit is None:
+                        break
+                    raw.append(hit)
+                    if how == "search":
+                        break
+                    pos = hit[1] if hit[1] > hit[0] else hit[1] + 1
+            else:
+                r = self.rx.match_at(line, 0)
+                if r is not None and (how != "fullmatch" or r[0] == len(line)):
+                    raw.append((0, r[0], r[1]))
+        byidx = {i: n for n, i in self.rx.groupindex.items()}
+        ngroups = self.tree().state.groups - 1
+        out = []
+        for a, b, g in raw:
+            caps = {byidx.get(i, i): (line[g[i][0] : g[i][1]] if i in g else None) for i in range(1, ngroups + 1)}
+            out.append((a, b, caps))
+        return out
+
+    def groups(self, role: str) -> list[str]:
+        return sorted((g for g, rs in self.roles.items() if rs == {role}), key=str)
+
+    def where(self) -> str:
+        return f"{self.site.fi.relpath}:{getattr(self.site.node, 'lineno', 0)}" if self.site.fi else ""
+
+    def key(self) -> str:
+        return f"{self.site.fi.relpath}::{self.site.fi.qualname}" if self.site.fi else "<module>"
+
+
+def pick(caps: dict, groups: list[str]):
+    vals = {caps[g] for g in groups if caps.get(g)}
+    if not vals:
+        return None
+    if len(vals) == 1:
+        return next(iter(vals))
+    return ("ambiguous", tuple(sorted(vals)))
+
+
+# ------------------------------------------------------------------------------------------------------------------- run
 def run(repo: Repo) -> Result:
     res = Result("C06")
     res.explanation = (
-        "Decides (R1) that every documented declaration and dependency form (names: identifier, identifier with _/digits, dotted; refs: "
-        "[N], N, alias; arrows -->, ->, <--, <-, -text->, <-text-) is in the language of the regular expressions reconstructed from the source "
-        "by constant folding, with the named groups binding name / alias / dependor / dependee as intended - evaluated on the patterns' sre "
-        "parse trees by the checker's own interpreter; (R2) per-component merging accumulates; (R3) aliases are resolved for dependor and each "
-        "dependee and the component set collects declared names, keys and values; (R4) missing tags raise."
+        "The pipeline behind PumlParser.parse is interpreted abstractly (shapes, provenance of regex-group captures, constant folding). "
+        "Decides (R1) that every documented declaration and dependency form (names: identifier, identifier with _/digits, dotted; refs: [N], N, "
+        "alias; arrows -->, ->, <--, <-, -text->, <-text-) is in the language of the regular expressions reconstructed from the source, with the "
+        "named groups binding name / alias / dependor / dependee as intended and flowing into the key / value side of the returned relation; "
+        "(R2) every store into a dependor-keyed dict accumulates; (R3) the alias map can reach keys and values of the returned relation and the "
+        "component set collects declared names, dependors and dependees; (R4) contents without tags are rejected with PumlParsingError and "
+        "exactly the text between the tags is scanned; (R5) declarations of one component with and without alias are not merged."
     )
     res.not_decided = "arbitrary generated diagrams and noise text containing the tags; forms outside the documented subset (listed as observations)."
-    res.trusted_base = ["re._parser.parse produces the pattern's AST", "the checker's regex interpreter (cross-validated against re on the form table in every run)"]
-    T = types_of(repo)
-    pp = repo.cls(PARSER, "PumlParser")
-    decl = pp.methods.get("_retrieve_modules_declared_outside_dependencies")
-    deps = pp.methods.get("_retrieve_dependencies_and_inline_modules")
-    tags = pp.methods.get("_remove_content_outside_start_and_end_tags")
-    uni = pp.methods.get("_unify")
-    gum = pp.methods.get("_get_unified_modules")
-    if not all((decl, deps, tags, uni, gum)):
-        raise AnalysisError("PumlParser methods not found")
-    # ---- R1 declarations
-    dtext, dflags, dcall = compiled_pattern(repo, decl)
-    drx = Regex(dtext, dflags)
-    roles = group_roles(repo, decl)
-    ctor = [c for c in calls_in(decl.node) if dotted(c.func) == "Module"]
-    if len(ctor) != 1:
-        raise AnalysisError(f"{decl.fq}: construction of the parsed Module not found")
-    kw = {k.arg: dotted(k.value) for k in ctor[0].keywords}
-    name_groups = roles.get(kw.get("name", ""), [])
-    alias_groups = roles.get(kw.get("alias", ""), [])
-    if not name_groups or not alias_groups:
-        raise AnalysisError(f"{decl.fq}: groups feeding Module(name=..., alias=...) not recognised")
-    forms = []
+    res.trusted_base = [
+        "re._parser.parse produces the pattern's AST",
+        "the checker's regex interpreter (cross-validated against re on the form table in every run)",
+        "the checker's abstract interpreter models the Python constructs and library calls used by the pipeline; unmodelled calls taint their result and lead to 'undecided', never to a pass",
+    ]
+    parser = find_class(repo, PARSER_CLASS)
+    result_cls = find_class(repo, RESULT_CLASS)
+    error_cls = find_class(repo, ERROR_CLASS)
+    interp, ret, completed = interpret(repo, parser, None)
+    parse_fi = repo.lookup_method(parser, "parse")
+    parse_key = f"{parse_fi.relpath}::{parse_fi.qualname}"
+    parse_where = f"{parse_fi.relpath}:{parse_fi.node.lineno}"
+    finals = [n for n in ret.refs if isinstance(n, A.Rec) and any(c.fq == result_cls.fq for c in repo.mro(n.cls))]
+    if not completed or not finals:
+        res.undecide("C06.R3", parse_key, f"the value returned by parse() is not recognised as a {result_cls.name} (unmodelled: {interp.unknown[:3]})", parse_where)
+        return res
+    fields = [a for c in reversed(repo.mro(result_cls)) for a in c.ann_attrs]
+    if "dependencies" not in fields or "all_modules" not in fields:
+        raise AnalysisError(f"public fields all_modules / dependencies of {result_cls.name} not found")
+    deps_av = A.join(*[n.fields.get("dependencies", A.BOT) for n in finals])
+    mods_av = A.join(*[n.fields.get("all_modules", A.BOT) for n in finals])
+    final_dicts = [n for n in deps_av.refs if isinstance(n, A.Dict)]
+    K: set = set()
+    V: set = set()
+    shape_ok = bool(final_dicts) and len(final_dicts) == len(deps_av.refs) and not deps_av.top
+    for d in final_dicts:
+        K |= d.k.prov
+        va, ok = elem_atoms(interp, d.v)
+        V |= va
+        shape_ok = shape_ok and ok
+    Aset, a_ok = elem_atoms(interp, mods_av)
+    fuzzy = bool(interp.unknown) or not shape_ok or not a_ok or has_unknown(K | V | Aset)
+    # ---- form table
+    decl_forms: list[tuple[str, str, str | None]] = []
     for n in NAMES:
-        forms += [(f"[{n}]", n, None), (f"component {n}", n, None), (f"component [{n}]", n, None), (f"[{n}] as {ALIAS}", n, ALIAS), (f"component [{n}] as {ALIAS}", n, ALIAS)]
-    samples = []
-    k = 0
-    for line, want_name, want_alias in forms:
-        samples.append(line)
-        ms = drx.finditer(line)
-        got = [(first(g, name_groups), first(g, alias_groups)) for _a, _b, g in ms]
-        ok = got == [(want_name, want_alias)]
-        k += 1
-        res.add("C06.R1", f"{decl.relpath}::{decl.qualname}::form `{line}`", ok, f"parsed as component {want_name!r}" + (f" with alias {want_alias!r}" if want_alias else "") if ok else f"the declaration `{line}` is parsed as {got} instead of [({want_name!r}, {want_alias!r})]: the documented form is not (correctly) in the language of the declaration pattern", where(decl, dcall), kind="regex-language")
-    for n in NAMES[:1]:
-        line = f"component {n} as {ALIAS}"
-        ms = drx.finditer(line)
-        got = [(first(g, name_groups), first(g, alias_groups)) for _a, _b, g in ms]
-        if got != [(n, ALIAS)]:
-            res.observe(f"C06.R1 not armed: `{line}` parses as {got} (alias ignored); docs/features/plantuml.md documents aliases only for the bracketed form `[module name] as alias`")
-    # ---- R1 dependencies
-    ptext, pflags, pcall = compiled_pattern(repo, deps)
-    prx = Regex(ptext, pflags)
-    roles = group_roles(repo, deps)
-    store = [c for c in calls_in(deps.node) if is_attr_call(c, "add") and isinstance(c.func.value, ast.Subscript)]
-    if len(store) != 1:
-        raise AnalysisError(f"{deps.fq}: store `dependencies[importer].add(importee)` not found")
-    dependor_groups = roles.get(dotted(store[0].func.value.slice), [])
-    dependee_groups = roles.get(dotted(store[0].args[0]), [])
-    if not dependor_groups or not dependee_groups:
-        raise AnalysisError(f"{deps.fq}: groups feeding the dependency store not recognised")
+        decl_forms += [(f"[{n}]", n, None), (f"component {n}", n, None), (f"component [{n}]", n, None), (f"[{n}] as {ALIAS}", n, ALIAS), (f"component [{n}] as {ALIAS}", n, ALIAS)]
+    dep_forms: list[tuple[str, str, str]] = []
     refs = lambda n: [f"[{n}]", n]  # noqa: E731
-    pairs = [("A", "src.a.b"), ("a_1", "mod2"), ("src.a.b", "A"), (ALIAS, "mod2")]
-    for left, right in pairs:
+    for left, right in [("A", "src.a.b"), ("a_1", "mod2"), ("src.a.b", "A"), (ALIAS, "mod2")]:
         for arrow, direction in ARROWS:
             for lref in refs(left):
                 for rref in refs(right):
-                    line = f"{lref} {arrow} {rref}"
-                    samples.append(line)
-                    ms = prx.finditer(line)
-                    got = [(first(g, dependor_groups), first(g, dependee_groups)) for _a, _b, g in ms]
-                    want = (left, right) if direction == "r" else (right, left)
-                    ok = got == [want]
-                    k += 1
-                    res.add("C06.R1", f"{deps.relpath}::{deps.qualname}::form `{line}`", ok, f"{want[0]} depends on {want[1]}" if ok else f"the dependency line `{line}` is parsed as {got} instead of [{want}] (dependor, dependee): the documented form is not (correctly) in the language of the dependency pattern", where(deps, pcall), kind="regex-language")
+                    dep_forms.append((f"{lref} {arrow} {rref}", *((left, right) if direction == "r" else (right, left))))
+    samples = [f[0] for f in decl_forms] + [f[0] for f in dep_forms]
+    # ---- the line patterns: patterns whose named groups are read somewhere
+    all_atoms: set = set()
+    for n in list(interp.nodes.values()):
+        if isinstance(n, (A.Seq, A.Dict, A.Rec)):
+            all_atoms |= interp.flat_prov(A.ref(n))
+    all_atoms |= K | V | Aset
+    all_atoms = bases(all_atoms)
+    A_direct = {a for a in Aset if a and a[0] != "v"}
+    K, V, Aset = bases(K), bases(V), frozenset(bases(Aset))
+    site_of: dict = {}
+    for s in interp.sites.values():
+        site_of.setdefault(s.pattern.key, s)
+    lps: list[LinePattern] = []
+    unread: list[LinePattern] = []
+    for pk, p in interp.patterns.items():
+        used = {a[2] for a in all_atoms if a[0] == "g" and a[1] == pk and a[2] != 0}
+        if pk not in site_of:
+            continue
+        lp = LinePattern(p, site_of[pk], samples, res)
+        lp.used = used
+        if used:
+            lps.append(lp)
+        elif lp.tree().state.groups > 1 and any(a == 0 and b == len(x) for x in samples for a, b, _c in lp.matches(x)):
+            unread.append(lp)
+    for lp in unread:
+        # the pattern matches documented lines, but no group of it is read according to the flow analysis: either the matches are
+        # thrown away or the analysis lost the flow - no verdict on the lines it would bind
+        res.undecide("C06.R1", lp.key(), f"the pattern `{lp.p.text[:50]}...` matches documented lines, but the analysis sees none of its groups being read", lp.where())
+    if not lps:
+        res.undecide("C06.R1", parse_key, f"no regular expression with groups feeds the parse result (patterns seen: {len(interp.patterns)}; unmodelled: {interp.unknown[:3]})", parse_where)
+        return res
+    res.analysed["patterns"] = {lp.key(): lp.p.text for lp in lps}
+    # ---- roles of the groups: what does a group capture in matches that span a whole documented line?
+    for lp in lps:
+        for line, name, alias in decl_forms:
+            for a, b, caps in lp.matches(line):
+                if a == 0 and b == len(line):
+                    for g, c in caps.items():
+                        if g not in lp.used:
+                            continue
+                        if c == name:
+                            lp.roles.setdefault(g, set()).add("name")
+                        elif alias and c == alias:
+                            lp.roles.setdefault(g, set()).add("alias")
+        for line, tail, head in dep_forms:
+            for a, b, caps in lp.matches(line):
+                if a == 0 and b == len(line):
+                    for g, c in caps.items():
+                        if g not in lp.used:
+                            continue
+                        if c == tail:
+                            lp.roles.setdefault(g, set()).add("tail")
+                        elif c == head:
+                            lp.roles.setdefault(g, set()).add("head")
+    ignored = [lp for lp in lps if not lp.roles]
+    lps = [lp for lp in lps if lp.roles]
+    for lp in ignored:
+        res.observe(f"C06.R1: pattern `{lp.p.text[:60]}` of {lp.key()} binds no part of a documented line (not a line pattern)")
+    lossy = bool(interp.lost_patterns or interp.unknown or unread)
+    if not lps and lossy:
+        res.undecide("C06.R1", parse_key, f"no reconstructed pattern matches a documented line as a whole (unmodelled: {(interp.lost_patterns or interp.unknown)[:3]})", parse_where)
+        return res
+    res.analysed["group_roles"] = {lp.key(): {str(g): sorted(r) for g, r in lp.roles.items()} for lp in lps}
+    conflict: set[str] = set()
+    for lp in lps:
+        for g, rs in lp.roles.items():
+            if len(rs) > 1:
+                conflict |= rs
+                res.undecide("C06.R1", f"{lp.key()}::group {g}", f"group `{g}` binds different sides in different documented forms ({sorted(rs)}); the direction logic is not recognised", lp.where())
+    decl_lps = [lp for lp in lps if lp.groups("name")]
+    dep_lps = [lp for lp in lps if lp.groups("tail") or lp.groups("head")]
+
+    def decl_records(line: str) -> list:
+        return [(pick(caps, lp.groups("name")), pick(caps, lp.groups("alias"))) for lp in decl_lps for _a, _b, caps in lp.matches(line)]
+
+    def dep_records(line: str) -> list:
+        return [(pick(caps, lp.groups("tail")), pick(caps, lp.groups("head"))) for lp in dep_lps for _a, _b, caps in lp.matches(line)]
+
+    def ambiguous(recs: list) -> bool:
+        return any(isinstance(x, tuple) for r in recs for x in r)
+
+    k = 0
+    fallback = lps[0] if lps else (ignored[0] if ignored else None)
+    anchor_decl = decl_lps[0] if decl_lps else fallback
+    anchor_dep = dep_lps[0] if dep_lps else fallback
+    for line, name, alias in decl_forms:
+        got, arrows = decl_records(line), dep_records(line)
+        k += 1
+        if conflict & {"name", "alias"}:
+            continue
+        construct = f"{anchor_decl.key() if decl_lps else parse_key}::form `{line}`"
+        if ambiguous(got):
+            res.undecide("C06.R1", construct, f"several name groups bind different texts in one match: {got}", anchor_decl.where())
+            continue
+        ok = got == [(name, alias)] and not arrows
+        detail = f"parsed as component {name!r}" + (f" with alias {alias!r}" if alias else "")
+        if not ok and (interp.lost_patterns or unread or (interp.unknown and (name, alias) not in got)):
+            res.undecide("C06.R1", construct, f"not matched by the reconstructed patterns, but not every pattern could be reconstructed (unmodelled: {(interp.lost_patterns or interp.unknown)[:2]})", anchor_decl.where())
+            continue
+        if not ok:
+            detail = f"the declaration `{line}` is parsed as {got}" + (f" plus arrows {arrows}" if arrows else "") + f" instead of [({name!r}, {alias!r})]: the documented form is not (correctly) in the language of the declaration pattern"
+        res.add("C06.R1", construct, ok, detail, anchor_decl.where(), kind="regex-language")
+    for line, tail, head in dep_forms:
+        got, decls = dep_records(line), decl_records(line)
+        k += 1
+        if conflict & {"tail", "head"}:
+            continue
+        construct = f"{anchor_dep.key() if dep_lps else parse_key}::form `{line}`"
+        if ambiguous(got):
+            res.undecide("C06.R1", construct, f"several groups of one side bind different texts in one match: {got}", anchor_dep.where())
+            continue
+        extra = [d for d in decls if d not in ((tail, None), (head, None))]
+        ok = got == [(tail, head)] and not extra
+        detail = f"{tail} depends on {head}"
+        if not ok and (interp.lost_patterns or unread or (interp.unknown and (tail, head) not in got)):
+            res.undecide("C06.R1", construct, f"not matched by the reconstructed patterns, but not every pattern could be reconstructed (unmodelled: {(interp.lost_patterns or interp.unknown)[:2]})", anchor_dep.where())
+            continue
+        if not ok:
+            detail = f"the dependency line `{line}` is parsed as {got} instead of [{(tail, head)}] (dependor, dependee)" + (f" and declares {extra}" if extra else "") + ": the documented form is not (correctly) in the language of the dependency pattern"
+        res.add("C06.R1", construct, ok, detail, anchor_dep.where(), kind="regex-language")
     res.floor("C06.R1", 100, k)
-    for rx, fi_, groups in ((drx, decl, name_groups), (prx, deps, dependor_groups + dependee_groups)):
-        for gname in groups:
-            for ch in (".", "_", "7", "x"):
-                ok = rx.group_admits(gname, ch)
-                res.add("C06.R1", f"{fi_.relpath}::{fi_.qualname}::group {gname} admits {ch!r}", ok, f"component names may contain {ch!r}" if ok else f"the character class of group `{gname}` does not admit {ch!r}: fully qualified dotted module names / identifiers cannot be component names", where(fi_, fi_.node), kind="regex-language")
-    bad = cross_validate(drx, samples) + cross_validate(prx, samples)
-    if bad:
-        raise AnalysisError(f"regex interpreter disagrees with the stdlib engine: {bad[:2]}")
-    res.analysed["patterns"] = {"declaration": dtext, "dependency": ptext}
-    res.analysed["form_table_lines"] = len(samples)
-    # observations outside the documented subset
+    # alias after an unbracketed name is not documented
+    line = f"component {NAMES[0]} as {ALIAS}"
+    got = decl_records(line)
+    if got != [(NAMES[0], ALIAS)]:
+        res.observe(f"C06.R1 not armed: `{line}` parses as {got} (alias ignored); docs/features/plantuml.md documents aliases only for the bracketed form `[module name] as alias`")
     for line in ("  [A] --> [B]", "[Mod A] --> [Mod B]", "[A] ---> [B]"):
-        got = [(first(g, dependor_groups), first(g, dependee_groups)) for _a, _b, g in prx.finditer(line)]
+        got = dep_records(line)
         if got != [("A", "B")] and got != [("Mod A", "Mod B")]:
             res.observe(f"C06.R1 not armed (outside the documented subset): `{line}` parses as {got}")
-    # ---- R4 / tags pattern
-    ttext, tflags, tcall = compiled_pattern(repo, tags)
-    trx = Regex(ttext, tflags)
-    body = "\n[A] --> [B]\n"
-    r = trx.search(f"noise\n@startuml{body}@enduml\ntrailing")
-    ok = r is not None and any(v == body for v in _all_groups(trx, f"noise\n@startuml{body}@enduml\ntrailing"))
-    res.add("C06.R4", f"{tags.relpath}::{tags.qualname}::content between the tags", ok, "text outside @startuml/@enduml is ignored, text between is kept" if ok else "the tag pattern does not capture exactly the text between @startuml and @enduml", where(tags, tcall), kind="regex-language")
-    ok = trx.search("[A] --> [B]\n") is None and trx.search("@startuml\n[A] --> [B]\n") is None
-    res.add("C06.R4", f"{tags.relpath}::{tags.qualname}::no tags, no match", ok, "a text without both tags is not in the language" if ok else "a text without start/end tags still matches the tag pattern", where(tags, tcall), kind="regex-language")
-    rets = [s for s in own_nodes(tags.node) if isinstance(s, ast.Return)]
-    raises = [r_ for r_ in own_nodes(tags.node) if isinstance(r_, ast.Raise)]
-    mvar = None
-    for s in own_nodes(tags.node):
-        if isinstance(s, ast.Assign) and isinstance(s.value, ast.Call) and (repo.resolve_name(tags.module, s.value.func) or "") in ("re.search", "re.match", "re.fullmatch"):
-            mvar = dotted(s.targets[0])
-    mtrue = to_formula(ast.Name(id=mvar or "_", ctx=ast.Load()), copy_prop(tags))
-    ok = mvar is not None and len(raises) == 1 and "PumlParsingError" in norm(raises[0]) and all(implies(guard_formula(tags, r_), mtrue) for r_ in rets) and implies(guard_formula(tags, raises[0]), f_not(mtrue)) and all(isinstance(r_.value, ast.Call) and is_attr_call(r_.value, "group") for r_ in rets)
-    res.add("C06.R4", f"{tags.relpath}::{tags.qualname}::no match raises", ok, "without a match PumlParsingError is raised; with a match the captured text is returned" if ok else "the no-match branch does not raise PumlParsingError (or the match branch does not return the captured text)", where(tags, tags.node), kind="dominance")
-    # ---- R2 merging
-    n2 = 0
-    for f in (uni, deps):
-        for lp in [l for l in own_nodes(f.node) if isinstance(l, ast.For)]:
-            keyvars = {x.id for x in ast.walk(lp.target) if isinstance(x, ast.Name)}
-            for s in ast.walk(lp):
-                if isinstance(s, ast.Assign) and isinstance(s.targets[0], ast.Subscript) and isinstance(s.targets[0].value, ast.Name):
-                    kexpr = s.targets[0].slice
-                    ksrc = kexpr
-                    if isinstance(kexpr, ast.Name):
-                        a = [x for x in ast.walk(lp) if isinstance(x, ast.Assign) and dotted(x.targets[0]) == kexpr.id]
-                        ksrc = a[0].value if len(a) == 1 else kexpr
-                    transformed = isinstance(ksrc, ast.Call) and any(isinstance(x, ast.Name) and x.id in keyvars for x in ast.walk(ksrc))
-                    if not transformed:
-                        continue
-                    n2 += 1
-                    d = dotted(s.targets[0].value)
-                    accum = any(isinstance(x, ast.Subscript) and dotted(x.value) == d for x in ast.walk(s.value)) or any(is_attr_call(x, "get") and dotted(x.func.value) == d for x in ast.walk(s.value) if isinstance(x, ast.Call))
-                    res.add("C06.R2", repo.key(f, s), accum, "the store merges with what is already recorded for the key" if accum else f"`{header(s)}` overwrites: the key `{norm(ksrc, 50)}` is many-to-one (an alias and its component name resolve to the same key), so arrows of a component referenced once by alias and once by name are lost", where(f, s), kind="structural")
-                if isinstance(s, ast.Call) and isinstance(s.func, ast.Attribute) and s.func.attr in ("update", "add", "extend") and isinstance(s.func.value, ast.Call) and is_attr_call(s.func.value, "setdefault"):
-                    n2 += 1
-                    res.add("C06.R2", repo.key(f, stmt_of(s)), True, "setdefault(...).update(...) accumulates per key", where(f, s), kind="structural")
-                if isinstance(s, ast.Call) and isinstance(s.func, ast.Attribute) and s.func.attr in ("update", "add") and isinstance(s.func.value, ast.Subscript):
-                    dd = dotted(s.func.value.value)
-                    is_dd = any(isinstance(a, ast.Assign) and dotted(a.targets[0]) == dd and isinstance(a.value, ast.Call) and dotted(a.value.func) == "defaultdict" for a in own_nodes(f.node))
-                    n2 += 1
-                    res.add("C06.R2", repo.key(f, stmt_of(s)), is_dd, "defaultdict(set)[key].add(...) accumulates per key" if is_dd else f"`{norm(s, 60)}` raises KeyError for a new key (not a defaultdict)", where(f, s), kind="structural")
-        for dc in [n for n in own_nodes(f.node) if isinstance(n, ast.DictComp)]:
-            keyvars = {x.id for g in dc.generators for x in ast.walk(g.target) if isinstance(x, ast.Name)}
-            transformed = isinstance(dc.key, ast.Call) and any(isinstance(x, ast.Name) and x.id in keyvars for x in ast.walk(dc.key))
-            if transformed and f is uni:
-                n2 += 1
-                res.add("C06.R2", repo.key(f, stmt_of(dc)) + " [dict comprehension]", False, f"a dict comprehension keyed by `{norm(dc.key, 50)}` keeps only the last entry per key: the key is many-to-one (alias and name of one component), so earlier arrows are dropped", where(f, dc), kind="structural")
-    res.floor("C06.R2", 2, n2)
-    # ---- R3 alias resolution on both sides + component set
-    um = pp.methods.get("_unify_module")
-    if um is None:
-        raise AnalysisError("PumlParser._unify_module not found")
-    rets = [s for s in own_nodes(um.node) if isinstance(s, ast.Return)]
-    mp, ap = um.param_names[1], um.param_names[2]
-    ok = len(rets) == 1 and isinstance(rets[0].value, ast.Call) and is_attr_call(rets[0].value, "get") and dotted(rets[0].value.func.value) == ap and [dotted(a) for a in rets[0].value.args] == [mp, mp]
-    res.add("C06.R3", f"{um.relpath}::{um.qualname}::alias or itself", ok, "an alias resolves to its component name, anything else to itself" if ok else "a reference is not resolved as `aliases.get(ref, ref)`", where(um, um.node), kind="structural")
+    # character classes of the name groups
+    for lp in lps:
+        for role in ("name", "tail", "head"):
+            for g in lp.groups(role):
+                for ch in (".", "_", "7", "x"):
+                    ok = admits(lp.tree(), g, ch, bool((lp.p.flags | int(getattr(lp.tree().state, 'flags', 0))) & re.DOTALL))
+                    res.add("C06.R1", f"{lp.key()}::group {g} admits {ch!r}", ok, f"component names may contain {ch!r}" if ok else f"the character class of group `{g}` does not admit {ch!r}: fully qualified dotted module names / identifiers cannot be component names", lp.where(), kind="regex-language")
+    res.analysed["form_table_lines"] = len(samples)
+    res.analysed["unmodelled"] = list(interp.unknown)
+    res.analysed["interpreted_functions"] = sorted(interp.called)
 
-    def transfer(f: FuncInfo, call: ast.Call, names, args, recv, kwargs):
-        if isinstance(call.func, ast.Attribute) and call.func.attr == um.name:
-            return {"U:" + t if not t.startswith("U:") else t for t in (args[0] if args else ())}
-        return None
+    # ---- flow of the role groups into the result
+    def atom(lp: LinePattern, g: str) -> tuple:
+        return ("g", lp.p.key, g)
 
-    dparam = uni.param_names[2]
+    def flow(rule: str, construct: str, want: list[tuple], have: set, good: str, bad_: str, where_: str, kind: str = "flow") -> None:
+        if not want:
+            return
+        missing = [a for a in want if a not in have]
+        if missing and fuzzy:
+            res.undecide(rule, construct, f"{bad_} ({', '.join(short(a) for a in missing)}), but the data flow is not fully recognised (unmodelled: {interp.unknown[:3] or 'shape of the result'})", where_)
+            return
+        res.add(rule, construct, not missing, good if not missing else f"{bad_}: {', '.join(short(a) for a in missing)} never flow(s) there", where_, kind=kind)
 
-    def sources(f: FuncInfo, e: ast.expr):
-        return None
-
-    flow = Flow(repo, T, Spec(transfer=transfer, objects_carry=False, scope=lambda f: f is uni, param_seeds={(uni.fq, dparam): {"DEP"}}))
-    lp = [l for l in own_nodes(uni.node) if isinstance(l, ast.For) and dparam in norm(l.iter)]
-    dictcomps = [n for n in own_nodes(uni.node) if isinstance(n, ast.DictComp) and any(dparam in norm(g.iter) for g in n.generators)]
-    ok_k = ok_v = False
-    if lp:
-        for s in ast.walk(lp[0]):
-            if isinstance(s, ast.Assign) and isinstance(s.targets[0], ast.Subscript):
-                ok_k = ok_k or set(flow.tags(s.targets[0].slice)) == {"U:DEP"}
-                ok_v = ok_v or set(flow.tags(s.value)) == {"U:DEP"}
-            if isinstance(s, ast.Call) and isinstance(s.func, ast.Attribute) and s.func.attr == "update" and isinstance(s.func.value, ast.Call) and is_attr_call(s.func.value, "setdefault"):
-                ok_k = ok_k or set(flow.tags(s.func.value.args[0])) == {"U:DEP"}
-                ok_v = ok_v or (s.args and set(flow.tags(s.args[0])) == {"U:DEP"})
-    for dc in dictcomps:
-        ok_k = ok_k or set(flow.tags(dc.key)) == {"U:DEP"}
-        ok_v = ok_v or set(flow.tags(dc.value)) == {"U:DEP"}
-    res.add("C06.R3", f"{uni.relpath}::{uni.qualname}::dependor resolved", ok_k, "the dependor of every arrow goes through alias resolution" if ok_k else "dependors are stored without alias resolution", where(uni, uni.node), kind="flow")
-    res.add("C06.R3", f"{uni.relpath}::{uni.qualname}::every dependee resolved", bool(ok_v), "every dependee goes through alias resolution" if ok_v else "dependees are stored without (complete) alias resolution", where(uni, uni.node), kind="flow")
-    # component set
-    mparam, dparam2 = gum.param_names[1], gum.param_names[2]
-
-    def src3(f: FuncInfo, e: ast.expr):
-        if isinstance(e, ast.Call) and isinstance(e.func, ast.Attribute) and dotted(e.func.value) == dparam2 and e.func.attr in ("keys", "values", "items"):
-            return {"KEYS"} if e.func.attr == "keys" else {"VALUES"} if e.func.attr == "values" else {"KEYS", "VALUES"}
-        if isinstance(e, ast.Attribute) and e.attr == "name" and isinstance(e.value, ast.Name):
-            return {"DECLARED"}
-        if isinstance(e, ast.Name) and e.id == dparam2 and isinstance(parent(e), (ast.For, ast.comprehension, ast.Call, ast.Starred, ast.BinOp)):
-            return {"KEYS"}
-        return None
-
-    fl3 = Flow(repo, T, Spec(sources=src3, objects_carry=False, scope=lambda f: f is gum))
-    rt = set(fl3.ret_tags.get(gum.fq, ()))
-    for tag, what in (("DECLARED", "declared components"), ("KEYS", "dependors"), ("VALUES", "dependees")):
-        res.add("C06.R3", f"{gum.relpath}::{gum.qualname}::{what} in the component set", tag in rt, f"{what} are part of the returned component set" if tag in rt else f"the {what} do not reach the returned component set: a component that only occurs as {what[:-1]} is missing from `all_modules` (no rule is generated for it)", where(gum, gum.node), kind="flow")
-    # discarded results of non-mutating set methods
-    for f in [m for m in pp.methods.values()]:
-        for s in own_nodes(f.node):
+    tails = [atom(lp, g) for lp in lps for g in lp.groups("tail")]
+    heads = [atom(lp, g) for lp in lps for g in lp.groups("head")]
+    names = [atom(lp, g) for lp in lps for g in lp.groups("name")]
+    aliases = [atom(lp, g) for lp in lps for g in lp.groups("alias")]
+    flow("C06.R1", f"{parse_key}::arrow tail is the dependor", tails, K, "the text bound on the tail side of an arrow becomes a key of ParsedDependencies.dependencies", "text bound on the tail side of an arrow (the dependor) does not become a key of the returned relation - arrows are read backwards or dropped", parse_where)
+    flow("C06.R1", f"{parse_key}::arrow head is the dependee", heads, V, "the text bound on the head side of an arrow becomes an element of the value sets of ParsedDependencies.dependencies", "text bound on the head side of an arrow (the dependee) does not become an element of the value sets of the returned relation - arrows are read backwards or dropped", parse_where)
+    # ---- R3 alias map and component set
+    alias_maps = [n for n in interp.nodes.values() if isinstance(n, A.Dict) and set(aliases) & bases(n.k.prov) and set(names) & bases(n.v.prov)]
+    aliased_names: list[tuple] = []
+    for lp in lps:
+        ag, ng = lp.groups("alias"), lp.groups("name")
+        seen: set[str] = set()
+        for line, name, alias in decl_forms:
+            if alias:
+                for _a, _b, caps in lp.matches(line):
+                    if any(caps.get(g) for g in ag):
+                        seen |= {g for g in ng if caps.get(g)}
+        aliased_names += [atom(lp, g) for g in sorted(seen)]
+    if aliases:
+        if alias_maps:
+            res.add("C06.R3", f"{parse_key}::alias map", True, "a dict maps the text of the alias group to the declared component name", parse_where, kind="flow")
+        # text of the declaration pattern has no other way into the relation than alias resolution (through a mapping or any other lookup)
+        flow("C06.R3", f"{parse_key}::dependor resolved", aliased_names, K, "the dependor of every arrow can be replaced by the component name its alias was declared for", "keys of the returned relation never come from the declarations (dependors are stored without alias resolution)", parse_where)
+        flow("C06.R3", f"{parse_key}::every dependee resolved", aliased_names, V, "every dependee can be replaced by the component name its alias was declared for", "elements of the value sets of the returned relation never come from the declarations (dependees are stored without alias resolution)", parse_where)
+    elif not res.violations:
+        res.undecide("C06.R3", f"{parse_key}::alias map", "no group of the declaration pattern binds the alias of `[N] as AL`", parse_where)
+    other_maps = [n for n in interp.nodes.values() if isinstance(n, A.Dict) and n not in alias_maps and set(names) & bases(n.v.prov)]
+    # names that only arrive through the alias map are not "the declared components"
+    declared_have = set(Aset) if other_maps else A_direct
+    for want, have, what in ((names, declared_have, "declared components"), (tails, set(Aset), "dependors"), (heads, set(Aset), "dependees")):
+        flow("C06.R3", f"{parse_key}::{what} in the component set", want, have, f"{what} are part of the returned component set", f"the {what} do not reach ParsedDependencies.all_modules: a component that only occurs as {what[:-1]} is missing (no rule is generated for it)", parse_where)
+    # aliases are not components: the text of the alias group must not reach the result (unless the analysis itself merged name and alias)
+    if aliases:
+        leaked = [a for a in aliases if a in (K | V | set(Aset))]
+        final_nodes = {id(n) for av in (deps_av, mods_av) for n in reachable(av)}
+        mixing = [n for n in interp.nodes.values() if id(n) not in final_nodes and mixes(n, set(aliases), set(names) | set(tails) | set(heads))]
+        construct = f"{parse_key}::aliases are not components"
+        if not leaked:
+            res.add("C06.R3", construct, True, "the text bound by the alias group is only used as key of the alias map", parse_where, kind="flow")
+        elif mixing or fuzzy:
+            res.observe(f"C06.R3 not armed: {', '.join(short(a) for a in leaked)} may reach the result, but the analysis merges alias and name in an intermediate container ({mixing[0].kind if mixing else 'unmodelled call'})")
+        else:
+            res.add("C06.R3", construct, False, f"the text bound by {', '.join(short(a) for a in leaked)} (the alias of `[N] as AL`) reaches the returned components / relation: aliases are listed as components instead of being resolved", parse_where, kind="flow")
+    # results of non-mutating methods that are thrown away
+    for fi in repo.all_functions():
+        if fi.fq not in interp_seen(interp):
+            continue
+        for s in A._own(fi.node):
             if isinstance(s, ast.Expr) and isinstance(s.value, ast.Call) and isinstance(s.value.func, ast.Attribute) and s.value.func.attr in ("union", "intersection", "difference", "symmetric_difference", "replace", "strip", "join"):
-                res.add("C06.R3", repo.key(f, s), False, f"the result of `{norm(s.value, 60)}` is discarded ({s.value.func.attr} returns a new object, it does not modify the receiver)", where(f, s), kind="structural")
-    # _unify returns (component set of the unified deps, unified deps)
-    gcall = [c for c in calls_in(uni.node) if is_attr_call(c, gum.name)]
-    ok = len(gcall) == 1 and dotted(gcall[0].args[0]) == uni.param_names[1]
-    res.add("C06.R3", f"{uni.relpath}::{uni.qualname}::component set from declarations and unified arrows", ok, "the component set is computed from the declarations and the unified dependencies" if ok else "the component set is not computed from the declared modules and the unified dependencies", where(uni, uni.node), kind="flow")
+                res.add("C06.R3", repo.key(fi, s), False, f"the result of `{norm(s.value, 60)}` is discarded ({s.value.func.attr} returns a new object, it does not modify the receiver)", f"{fi.relpath}:{s.lineno}", kind="structural")
+    # ---- R2 accumulate, never overwrite
+    check_merges(repo, res, interp, set(tails), set(heads), final_dicts, parse_key, parse_where)
+    # ---- R5 declarations with and without alias stay distinct
+    implicit = sorted({line for line, _t, _h in dep_forms if decl_records(line)})
+    check_records(repo, res, interp, set(aliases), set(names), parse_key, parse_where, implicit[0] if implicit else None)
+    # ---- R4 tags
+    check_tags(repo, res, parser, error_cls, {lp.p.text for lp in lps}, parse_key, parse_where)
     return res
 
 
-def _all_groups(rx: Regex, s: str) -> list[str]:
-    r = rx.match_at(s, 0)
-    out = []
-    for pos in range(len(s) + 1):
-        r = rx.match_at(s, pos)
-        if r is not None:
-            end, g = r
-            out = [s[a:b] for a, b in g.values()]
+def reachable(av: A.AV, seen: dict | None = None) -> list:
+    seen = seen if seen is not None else {}
+    for n in av.refs:
+        if id(n) in seen:
+            continue
+        seen[id(n)] = n
+        if isinstance(n, A.Seq):
+            reachable(n.elem, seen)
+        elif isinstance(n, A.Dict):
+            reachable(n.k, seen)
+            reachable(n.v, seen)
+        elif isinstance(n, A.View):
+            reachable(A.ref(n.d), seen)
+        elif isinstance(n, A.Rec):
+            for v in n.fields.values():
+                reachable(v, seen)
+    return list(seen.values())
+
+
+def mixes(n, left: set, right: set) -> bool:
+    """Does one abstract slot of the node hold text of both kinds (the abstraction cannot tell them apart any more)?"""
+    slots: list[A.AV] = []
+    if isinstance(n, A.Seq):
+        slots = [n._elem, *(n.items or [])]
+    elif isinstance(n, A.Dict):
+        slots = [n.k, n.v]
+    elif isinstance(n, A.Rec):
+        slots = list(n.fields.values())
+    return any(left & bases(s.prov) and right & bases(s.prov) for s in slots)
+
+
+def interp_seen(interp: A.Interp) -> set[str]:
+    seen = getattr(interp, "_seen_funcs", None)
+    if seen is None:
+        seen = set()
+        for e in interp.events.values():
+            if e.fi is not None:
+                seen.add(e.fi.fq)
+        for s in interp.sites.values():
+            if s.fi is not None:
+                seen.add(s.fi.fq)
+        seen |= set(getattr(interp, "called", ()))
+        interp._seen_funcs = seen  # type: ignore[attr-defined]
+    return seen
+
+
+# -------------------------------------------------------------------------------------------------------------------- R2
+def check_merges(repo: Repo, res: Result, interp: A.Interp, tails: set, heads: set, final_dicts: list, parse_key: str, parse_where: str) -> None:
+    # dependor-keyed dicts that hold dependees (a dict from dependor to a position / count is no relation)
+    dep_dicts = {n for n in interp.nodes.values() if isinstance(n, A.Dict) and tails & bases(n.k.prov) and (heads & bases(interp.flat_prov(n.v)) or not n.v.consts and not n.v.top and n.v.refs)}
+    dep_dicts |= set(final_dicts)
+    events = [e for e in interp.events.values() if e.dicts & dep_dicts]
+    per_dict: dict = {}
+    for e in events:
+        for d in e.dicts:
+            per_dict.setdefault(d, []).append(e)
+    n2 = 0
+    for e in events:
+        fi = e.fi
+        construct = repo.key(fi, e.node) if fi is not None else norm(e.node, 80)
+        where_ = f"{fi.relpath}:{getattr(e.node, 'lineno', 0)}" if fi is not None else ""
+        facts = {(f[0], f[2]) for f in e.facts if f[0] in ("absent", "present", "absent-or-empty") and f[1] & e.dicts}
+        n2 += 1
+        if e.kind == "setdefault":
+            res.add("C06.R2", construct, True, "setdefault keeps what is already recorded for the key", where_, kind="structural")
+        elif e.kind == "item-mutate":
+            ensured = all(d.factory is not None for d in e.dicts) or ("present", e.key_text) in facts or all(any(o is not e and o.kind != "item-mutate" for o in per_dict.get(d, [])) for d in e.dicts)
+            res.add("C06.R2", construct, ensured, "the entry of the key is extended in place" if ensured else f"`{norm(e.node, 60)}` raises KeyError for a new key (the dict is not a defaultdict and the entry is never created)", where_, kind="structural")
+        elif e.kind in ("assign", "comp", "ctor"):
+            only_site = all(len(per_dict.get(d, [])) == 1 for d in e.dicts)
+            if e.reads_same:
+                res.add("C06.R2", construct, True, "the stored value is built from what is already recorded for the key", where_, kind="structural")
+            elif ("absent", e.key_text) in facts or (("absent-or-empty", e.key_text) in facts):
+                res.add("C06.R2", construct, True, "the store creates the entry of a key that is not in the dict yet", where_, kind="structural")
+            elif e.fresh_empty and fills_fresh_dict(e, per_dict):
+                res.add("C06.R2", construct, True, "empty entries are created before anything is recorded in the dict", where_, kind="structural")
+            elif e.key.uniq is not None and (only_site or fills_fresh_dict(e, per_dict)):
+                res.add("C06.R2", construct, True, "the keys are the distinct keys of the dict / set being iterated and the dict is empty before: no two stores go to the same key", where_, kind="structural")
+            elif e.key.uniq is not None:
+                res.undecide("C06.R2", construct, "the store uses the distinct keys of the collection being iterated, but the dict is also filled elsewhere and the order of the two is not recognised", where_)
+            else:
+                what = "a dict comprehension keeps only the last entry per key" if e.kind == "comp" else "dict(pairs) keeps only the last pair per key" if e.kind == "ctor" else f"`{norm(e.node, 70)}` overwrites"
+                res.add("C06.R2", construct + (" [dict comprehension]" if e.kind == "comp" else ""), False, f"{what}: the key `{e.key_text or norm(e.node, 40)}` is many-to-one (an alias and its component name resolve to the same key; one component draws several arrows), so arrows recorded earlier under the same key are lost", where_, kind="structural")
+        elif e.kind == "update":
+            targets_other = any(len(per_dict.get(d, [])) > 1 for d in e.dicts) or e.in_loop
+            if targets_other:
+                res.undecide("C06.R2", construct, f"dict-level merge ({e.detail}) into a dependor-keyed dict that is also filled elsewhere: per-key accumulation not recognised", where_)
+            else:
+                res.add("C06.R2", construct, True, "a single dict-level copy: keys stay distinct", where_, kind="structural")
+    res.floor("C06.R2", 1, n2)
+
+
+def fills_fresh_dict(e: A.Event, per_dict: dict) -> bool:
+    """The store sits in a loop that comes textually before every other store into the same (locally created) dict."""
+    if e.fi is None or isinstance(e.node, ast.DictComp):
+        return False
+    from core.loader import ancestors
+
+    loop = None
+    for a in ancestors(e.node):
+        if a is e.fi.node:
             break
-    return out
+        if isinstance(a, (ast.For, ast.While)):
+            loop = a
+    if loop is None:
+        return False
+    end = getattr(loop, "end_lineno", None)
+    for d in e.dicts:
+        alloc = d.alloc
+        if alloc is None or not (getattr(alloc, "lineno", 10**9) < loop.lineno) or not any(x is e.fi.node for x in ancestors(alloc)):
+            return False
+        for o in per_dict.get(d, []):
+            if o is e:
+                continue
+            if o.fi is not e.fi or end is None or getattr(o.node, "lineno", 0) <= end:
+                return False
+    return True
+
+
+# -------------------------------------------------------------------------------------------------------------------- R5
+def check_records(repo: Repo, res: Result, interp: A.Interp, aliases: set, names: set, parse_key: str, parse_where: str, implicit: str | None) -> None:
+    if not aliases:
+        return
+    holders = 0
+    done: set[str] = set()
+    how = f"an arrow line such as `{implicit}` also matches the declaration pattern and declares its last component without alias" if implicit else "a component may be declared twice, once with and once without alias"
+    for n in list(interp.nodes.values()):
+        keyed: list[A.AV] = []
+        if isinstance(n, A.Seq) and n.kind in ("set", "frozenset"):
+            keyed.append(n.elem)
+        elif isinstance(n, A.Dict):
+            keyed.append(n.k)
+        for av in keyed:
+            for r in av.refs:
+                if not isinstance(r, A.Rec):
+                    continue
+                alias_fields = [f for f, v in r.fields.items() if aliases & bases(v.prov)]
+                name_fields = [f for f, v in r.fields.items() if names & bases(v.prov)]
+                if not alias_fields or not name_fields:
+                    continue
+                holders += 1
+                ci = r.cls
+                construct = f"{ci.module.relpath}::{ci.name}::equality covers {', '.join(alias_fields)}"
+                if construct in done:
+                    continue
+                done.add(construct)
+                where_ = f"{ci.module.relpath}:{ci.node.lineno}"
+                verdict, why = record_equality(repo, ci, alias_fields, how)
+                if verdict is None:
+                    res.undecide("C06.R5", construct, why, where_)
+                else:
+                    res.add("C06.R5", construct, verdict, why, where_, kind="structural")
+    if not holders:
+        res.add("C06.R5", parse_key + "::declarations are not deduplicated by name", True, "declaration records (name, alias) are not elements of a set / keys of a dict: declarations of one component with and without alias cannot be merged", parse_where, nontrivial=False)
+
+
+def record_equality(repo: Repo, ci: ClassInfo, alias_fields: list[str], how: str) -> tuple[bool | None, str]:
+    """Do two records that differ only in the alias compare unequal?"""
+    for c in repo.mro(ci):
+        eq = c.methods.get("__eq__")
+        if eq is not None:
+            read = {x.attr for x in ast.walk(eq.node) if isinstance(x, ast.Attribute)} | {x.value for x in ast.walk(eq.node) if isinstance(x, ast.Constant) and isinstance(x.value, str)}
+            if any(f in read for f in alias_fields):
+                return True, f"{c.name}.__eq__ reads {', '.join(alias_fields)}"
+            if any(isinstance(x, ast.Call) and isinstance(x.func, ast.Name) and x.func.id in ("astuple", "asdict", "vars") for x in ast.walk(eq.node)) or any(isinstance(x, ast.Attribute) and x.attr == "__dict__" for x in ast.walk(eq.node)):
+                return True, f"{c.name}.__eq__ compares all fields"
+            return False, f"{c.name}.__eq__ ignores {', '.join(alias_fields)}: in a set the declaration `[n] as a` and an alias-free declaration of n ({how}) are one element, whichever comes first in the file survives - the alias is lost depending on line order"
+    for c in repo.mro(ci):
+        for d in c.node.decorator_list:
+            if isinstance(d, ast.Call) and any(k.arg == "eq" and isinstance(k.value, ast.Constant) and k.value.value is False for k in d.keywords):
+                return True, "eq=False: records are compared by identity and never merged"
+    is_dc = any(c.is_dataclass for c in repo.mro(ci))
+    is_nt = any(b.endswith("NamedTuple") for b in repo.external_bases(ci))
+    if not is_dc and not is_nt:
+        return True, "records are compared by identity and never merged"
+    for c in repo.mro(ci):
+        for f in alias_fields:
+            dflt = c.class_attrs.get(f)
+            if isinstance(dflt, ast.Call) and norm(dflt.func).split(".")[-1] == "field":
+                for k in dflt.keywords:
+                    if k.arg == "compare":
+                        if isinstance(k.value, ast.Constant) and k.value.value is False:
+                            return False, f"field `{f}` of {c.name} is excluded from equality and hash (compare=False): in a set the declaration `[n] as a` and an alias-free declaration of n ({how}) are one element, whichever comes first in the file survives - the alias is lost depending on line order"
+                        if not (isinstance(k.value, ast.Constant) and k.value.value is True):
+                            return None, f"compare= of field `{f}` is not a literal"
+    return True, f"generated equality of {ci.name} covers {', '.join(alias_fields)}: `[n] as a` and an alias-free declaration of n stay two elements"
+
+
+# -------------------------------------------------------------------------------------------------------------------- R4
+def check_tags(repo: Repo, res: Result, parser: ClassInfo, error_cls: ClassInfo, line_patterns: set[str], parse_key: str, parse_where: str) -> None:
+    def family(name: str) -> bool:
+        ci = repo.classes.get(name)
+        return ci is not None and any(c.fq == error_cls.fq for c in repo.mro(ci))
+
+    def raise_site(interp: A.Interp) -> tuple[str, str]:
+        for r in interp.raised:
+            if r.how == "stmt" and len(r.where) == 2 and r.where[0] is not None:
+                fi, node = r.where
+                return f"{fi.relpath}::{fi.qualname}", f"{fi.relpath}:{node.lineno}"
+        return parse_key, parse_where
+
+    def slicing_site(interp: A.Interp) -> tuple[str, str]:
+        """The statement that cuts the text between the tags out of the file content (for diagnostics)."""
+        def mentions_tag(fi, node) -> bool:
+            if isinstance(node, ast.Constant) and isinstance(node.value, str) and ("@startuml" in node.value or "@enduml" in node.value):
+                return True
+            if isinstance(node, (ast.Name, ast.Attribute)):
+                fq = repo.resolve_name(fi.module, node)
+                if fq:
+                    m2, _, attr = fq.rpartition(".")
+                    om = repo.modules.get(m2)
+                    c = om.constants.get(attr) if om is not None else None
+                    return isinstance(c, ast.Constant) and isinstance(c.value, str) and ("@startuml" in c.value or "@enduml" in c.value)
+            return False
+
+        for fi in repo.all_functions():
+            if fi.fq not in interp.called or isinstance(fi.node, ast.Lambda):
+                continue
+            docs = {id(n.value) for n in A._own(fi.node) if isinstance(n, ast.Expr) and isinstance(n.value, ast.Constant)}
+            nodes = [n for n in A._own(fi.node) if id(n) not in docs]
+            if not any(mentions_tag(fi, n) for n in nodes):
+                continue
+            cut = [n for n in nodes if isinstance(n, ast.stmt) and any((isinstance(x, ast.Subscript) and isinstance(x.slice, ast.Slice)) or (isinstance(x, ast.Call) and isinstance(x.func, ast.Attribute) and x.func.attr in ("group", "groups", "partition", "rpartition", "split", "rsplit")) for x in ast.walk(n)) and not isinstance(n, (ast.If, ast.For, ast.While, ast.Try, ast.With, ast.FunctionDef))]
+            st = cut[-1] if cut else fi.node
+            return repo.key(fi, st), f"{fi.relpath}:{st.lineno}"
+        return parse_key, parse_where
+
+    # accepted content: exactly the text between the tags is scanned
+    for what, content in ACCEPTED_MORE:
+        interp, _v, completed = interpret(repo, parser, A.const(content))
+        construct = f"{parse_key}::content between the tags [{what}]"
+        subjects = [s for s in interp.sites.values() if s.pattern.text in line_patterns]
+        scan_start = min((s.when for s in subjects if getattr(s, "round", None) == interp.round), default=None)
+        hard = [r for r in interp.raised if r.how in ("stmt", "op") and (scan_start is None or r.when < scan_start or not completed)]
+        if not completed:
+            names = sorted({r.name.rsplit('.', 1)[-1] for r in hard})
+            res.add("C06.R4", construct, False, f"a file with {what} is rejected ({', '.join(names) or 'no path returns'}): the diagram between the tags is not parsed", raise_site(interp)[1], kind="regex-language")
+        elif hard or not subjects or not all(s.subject.concrete for s in subjects):
+            res.undecide("C06.R4", construct, f"the text scanned for declarations / arrows is not determined by folding the tag slicing (unmodelled: {interp.unknown[:3]}; may raise: {sorted({r.name for r in hard})})", parse_where)
+        else:
+            seen = sorted({v for s in subjects for v in s.subject.values() if v is not None}, key=repr)
+            want_lines = {l.strip() for l in BODY.splitlines() if l.strip()}
+            got_lines = {l.strip() for v in seen if isinstance(v, str) for l in v.splitlines() if l.strip()}
+            ok = all(isinstance(v, str) for v in seen) and got_lines == want_lines
+            skey, swhere = slicing_site(interp)
+            res.add("C06.R4", construct if ok else skey + f" [{what}]", ok, "the text between the start tag and the last end tag is scanned" if ok else f"for a file with {what} the text scanned for declarations / arrows is {seen!r}, not the diagram between the tags ({BODY!r}): the start tag is not searched before the end tag" + (" - an empty diagram is returned silently" if not got_lines else ""), parse_where if ok else swhere, kind="regex-language")
+    interp, _v, completed = interpret(repo, parser, A.const(TAGGED))
+    construct = f"{parse_key}::content between the tags"
+    subjects = [s for s in interp.sites.values() if s.pattern.text in line_patterns]
+    # raises after the first scan for declarations / arrows belong to the extraction (its matches are abstract), not to the tag slicing
+    scan_start = min((s.when for s in subjects if getattr(s, "round", None) == interp.round), default=None)
+    hard = [r for r in interp.raised if r.how in ("stmt", "op") and (scan_start is None or r.when < scan_start or not completed)]
+    if not completed:
+        names = sorted({r.name.rsplit('.', 1)[-1] for r in hard})
+        res.add("C06.R4", construct, False, f"a file with @startuml ... @enduml and text around the tags is rejected ({', '.join(names) or 'no path returns'})", raise_site(interp)[1], kind="regex-language")
+    elif hard or not subjects or not all(s.subject.concrete for s in subjects):
+        res.undecide("C06.R4", construct, f"the text scanned for declarations / arrows is not determined by folding the tag slicing (unmodelled: {interp.unknown[:3]}; may raise: {sorted({r.name for r in hard})})", parse_where)
+    else:
+        seen = sorted({v for s in subjects for v in s.subject.values() if v is not None}, key=repr)
+        # the pipeline may scan the text as a whole or line by line: compare the sets of non-blank lines
+        want_lines = {l.strip() for l in BODY.splitlines() if l.strip()}
+        got_lines = {l.strip() for v in seen if isinstance(v, str) for l in v.splitlines() if l.strip()}
+        ok = all(isinstance(v, str) for v in seen) and got_lines == want_lines
+        res.add("C06.R4", construct, ok, "text outside @startuml/@enduml is ignored, text between is kept" if ok else f"the text scanned for declarations / arrows is {seen!r}, not the text between @startuml and @enduml ({BODY!r})", parse_where, kind="regex-language")
+    # a pattern applied once (search / match) to a text of several lines reads only one of them
+    if completed:
+        for st in subjects:
+            if st.how in ("search", "match", "fullmatch") and len(st.calls) == 1 and st.subject.concrete and any(isinstance(v, str) and len([l for l in v.splitlines() if l.strip()]) > 1 for v in st.subject.values()):
+                key_ = repo.key(st.fi, st.node) if st.fi is not None else parse_key
+                res.add("C06.R1", key_ + " [applied once to the whole diagram]", False, f"`{norm(st.node, 60)}` applies the pattern once to the text between the tags ({len(BODY.strip().splitlines())} lines in the sample): only the first declaration / arrow of a diagram is read", f"{st.fi.relpath}:{st.node.lineno}" if st.fi is not None else parse_where, kind="regex-language")
+    # rejected contents
+    for what, content in REJECTED:
+        interp, _v, completed = interpret(repo, parser, A.const(content))
+        scans = [s.when for s in interp.sites.values() if s.pattern.text in line_patterns and getattr(s, "round", None) == interp.round]
+        hard = [r for r in interp.raised if r.how in ("stmt", "op") and (not scans or not completed or r.when < min(scans))]
+        key, where_ = raise_site(interp)
+        construct = f"{parse_key}::{what} is rejected"
+        soft = [r for r in interp.raised if r.name not in ("builtins.KeyError", "builtins.AttributeError", "builtins.StopIteration")]
+        if completed and not hard and (interp.unknown or soft):
+            res.undecide("C06.R4", construct, f"folding the tag slicing on a file with {what} finds no raise, but not everything is modelled (unmodelled: {interp.unknown[:3]}; may raise: {sorted({r.name for r in soft})[:3]})", where_)
+        elif completed and not hard:
+            skey, swhere = slicing_site(interp)
+            scanned = sorted({v for s_ in interp.sites.values() if s_.pattern.text in line_patterns and s_.subject.concrete for v in s_.subject.values() if isinstance(v, str)})
+            res.add("C06.R4", f"{skey} [{what}]", False, f"a file with {what} is accepted: no path raises PumlParsingError" + (f"; the text {scanned!r} is parsed as the diagram" if scanned else "") + " (the no-match branch does not raise / the order of the tags is not checked)", swhere, kind="dominance")
+        elif completed:
+            res.undecide("C06.R4", construct, f"folding the tag slicing on a file with {what} does not decide whether parse() raises (unmodelled: {interp.unknown[:3]})", where_)
+        else:
+            wrong = sorted({r.name for r in hard if not family(r.name)})
+            ok = bool(hard) and not wrong
+            res.add("C06.R4", construct, ok, f"parse() raises {error_cls.name}" if ok else f"a file with {what} is rejected with {', '.join(w.rsplit('.', 1)[-1] for w in wrong) or 'an unknown error'} instead of {error_cls.name}", where_, kind="dominance")
